@@ -729,8 +729,10 @@ func (s *Store[K, V]) sinkWrite(item WriteBufItem[K, V]) {
 	}
 
 	// ignore removed entries, except code NEW
-	// which will reset removed flag
-	if entry.flag.IsRemoved() && item.code != NEW {
+	// which will reset removed flag, and code REMOVE:
+	// the entry was deleted by API before eviction/expiration removed it from policy,
+	// so the removal listener has not been called yet
+	if entry.flag.IsRemoved() && item.code != NEW && item.code != REMOVE {
 		return
 	}
 
